@@ -10,9 +10,9 @@ package semver
 //@ spec func isidc(c int) bool = (c >= 65 && c <= 90) || (c >= 97 && c <= 122) || isdig(c) || c == 45
 //@ spec func alldig(s string, a int, b int) bool = forall k int :: a <= k && k < b ==> isdig(s[k])
 //@ # end of the maximal digit run starting at a
-//@ spec func digend(s string, a int) int = if a < len(s) && a >= 0 && isdig(s[a]) then digend(s, a+1) else a
+//@ spec func digend(s string, a int) int decreases len(s) - a = if a < len(s) && a >= 0 && isdig(s[a]) then digend(s, a+1) else a
 //@ # first '+' at or after a (or len(s))
-//@ spec func firstplus(s string, a int) int = if a < len(s) && a >= 0 && s[a] != '+' then firstplus(s, a+1) else a
+//@ spec func firstplus(s string, a int) int decreases len(s) - a = if a < len(s) && a >= 0 && s[a] != '+' then firstplus(s, a+1) else a
 //@ # decimal integer without extra leading zeros in s[i:j]
 //@ spec func numok(s string, i int, j int) bool = j > i && (s[i] != '0' || j == i+1)
 //@ # s[a:e] is a series of non-empty dot-separated identifiers over [0-9A-Za-z-];
@@ -50,7 +50,7 @@ package semver
 //@         && (R2(v) == "" || (R2(v)[0] == '.' && NUMS(S3(v)) && TAIL(R3(v))))))
 
 //@ # first '.' at or after a (or len(s)); first identifier of a dot-separated series and what follows it
-//@ spec func firstdot(s string, a int) int = if a < len(s) && a >= 0 && s[a] != '.' then firstdot(s, a+1) else a
+//@ spec func firstdot(s string, a int) int decreases len(s) - a = if a < len(s) && a >= 0 && s[a] != '.' then firstdot(s, a+1) else a
 //@ spec func IDENT(s string) string = s[:firstdot(s, 0)]
 //@ spec func AFTI(s string) string = s[firstdot(s, 0):]
 
@@ -219,8 +219,8 @@ package semver
 
 //@ # ---------- numeric value of digit strings (unbounded) ----------
 //@ # NV(s, n): value of the decimal numeral s[0:n]
-//@ spec func NV(s string, n int) int = if n <= 0 then 0 else 10 * NV(s, n-1) + (s[n-1] - 48)
-//@ spec func P10(n int) int = if n <= 0 then 1 else 10 * P10(n-1)
+//@ spec func NV(s string, n int) int decreases n = if n <= 0 then 0 else 10 * NV(s, n-1) + (s[n-1] - 48)
+//@ spec func P10(n int) int decreases n = if n <= 0 then 1 else 10 * P10(n-1)
 //@ # canonical numeral: non-empty digits, no leading zero unless it is "0"
 //@ spec func CNUM(s string) bool = len(s) > 0 && alldig(s, 0, len(s)) && (s[0] != '0' || len(s) == 1)
 //@ spec func sgn(d int) int = if d < 0 then 0 - 1 else if d > 0 then 1 else 0
@@ -295,7 +295,7 @@ package semver
 //@     else (if a < b then 0 - 1 else 1)
 //@ # x, y: "" or a separator followed by dot-separated identifiers; compare identifier by identifier,
 //@ # a larger set of fields wins when all preceding identifiers are equal
-//@ spec func PCMP(x string, y string) int =
+//@ spec func PCMP(x string, y string) int decreases len(x) uses firstdot_bounds =
 //@     if x == "" && y == "" then 0 else if x == "" then 0 - 1 else if y == "" then 1
 //@     else if IDENT(x[1:]) != IDENT(y[1:]) then IDCMP(IDENT(x[1:]), IDENT(y[1:]))
 //@     else PCMP(AFTI(x[1:]), AFTI(y[1:]))
@@ -366,10 +366,17 @@ package semver
 //@   trigger NUMT(s)
 //@   props C04
 
+//@ lemma alldig_prefix(s string, e int, p int, q int)
+//@   requires 0 <= p && p <= q && q <= e && e <= len(s)
+//@   ensures alldig(s[:e], p, q) == alldig(s, p, q)
+//@   trigger alldig(s[:e], p, q)
+//@   trigger alldig(s, p, q), s[:e]
+//@   props C04
+
 //@ lemma idseq_prefix(s string, e int, numeric bool)
 //@   requires 1 <= e && e <= len(s)
 //@   ensures idseq(s[:e], 1, e, numeric) == idseq(s, 1, e, numeric)
-//@   uses alldig_sub
+//@   uses alldig_prefix
 //@   trigger idseq(s[:e], 1, e, numeric)
 //@   props C04
 
